@@ -32,6 +32,9 @@ type Config struct {
 	Check         func(e vrt.Exec) (key, what, outcome string)
 	AllowDeadlock bool
 	AllowLeftover bool // threads still blocked when main returns are not an error
+	// ByScenario shards whole scenarios over the workers (for checks made of many
+	// small scenarios) instead of sharding the schedule tree of each scenario.
+	ByScenario bool
 }
 
 type violation struct {
@@ -97,6 +100,13 @@ func Explore(c *vlib.Ctx, cfg Config) {
 	if workerShard < 0 {
 		return // parent: work happens in Finish
 	}
+	shard, nshards := workerShard, workerN
+	if cfg.ByScenario {
+		if (len(scenarios)-1)%workerN != workerShard {
+			return
+		}
+		shard, nshards = 0, 1
+	}
 	res := scenResult{Scenario: cfg.Scenario, Outcomes: map[string]int{}}
 	seenKey := map[string]bool{}
 	confirm := func(e vrt.Exec, key string) (bool, []string) {
@@ -120,7 +130,7 @@ func Explore(c *vlib.Ctx, cfg Config) {
 		}
 		return true, nil
 	}
-	if workerShard == 0 {
+	if shard == 0 && (!cfg.ByScenario || len(scenarios)%37 == 1) {
 		// determinism self-check on the default schedule
 		r1, _ := vrt.Replay(nil, cfg.MaxSteps, cfg.Body)
 		r2, _ := vrt.Replay(nil, cfg.MaxSteps, cfg.Body)
@@ -133,7 +143,7 @@ func Explore(c *vlib.Ctx, cfg Config) {
 		}
 	}
 	if res.EngineErr == "" {
-		res.Stats = vrt.Explore(cfg.Bound, workerShard, workerN, cfg.Deadline, cfg.MaxSteps, cfg.Body, func(e vrt.Exec) {
+		res.Stats = vrt.Explore(cfg.Bound, shard, nshards, cfg.Deadline, cfg.MaxSteps, cfg.Body, func(e vrt.Exec) {
 			key, what := engineCheck(cfg, e)
 			outcome := ""
 			if key == "" {
@@ -339,7 +349,9 @@ func Finish(c *vlib.Ctx, rule string) {
 			"max_choice_points_in_one_execution": a.stats.MaxPoints, "deviation_bound_completed": a.boundDone, "exhaustive_within_bound": a.exhaustive,
 			"distinct_outcomes": len(a.outcomes), "outcomes": outs})
 		c.Sample(map[string]interface{}{"scenario": name, "longest_schedule_as_choice_sequence": a.sample})
-		fmt.Printf("  %s: schedules=%d decisions=%d bound_done=%d exhaustive=%v outcomes=%d\n", name, a.stats.Executions, a.stats.ChoicePoints, a.boundDone, a.exhaustive, len(a.outcomes))
+		if len(scenarios) <= 30 {
+			fmt.Printf("  %s: schedules=%d decisions=%d bound_done=%d exhaustive=%v outcomes=%d\n", name, a.stats.Executions, a.stats.ChoicePoints, a.boundDone, a.exhaustive, len(a.outcomes))
+		}
 	}
 	c.AddEvals(int64(totalExec))
 	for i := 0; i < totalNT; i++ {
@@ -348,6 +360,10 @@ func Finish(c *vlib.Ctx, rule string) {
 	c.AddEvals(-int64(totalNT))
 	c.Set("schedules", totalExec)
 	c.Set("transitions", totalPts)
+	c.Set("scenario_count", len(per))
+	if len(per) > 40 {
+		per = append(per[:40], map[string]interface{}{"note": fmt.Sprintf("%d further scenarios omitted from the evidence listing", len(scenarios)-40)})
+	}
 	c.Set("scenarios", per)
 	c.Set("workers", n)
 	if !allExh {
